@@ -5,9 +5,11 @@
    "expected types" filter of the IP and CoAP transports, the reply checks of
    IpPairing.add_pairing/remove_pairing and BlePairing.add_pairing/remove_pairing):
 
-     the accessory's reply to one protocol step is a TLV item list  State? Error? <step fields> RetryDelay?
+     the accessory's reply to one protocol step is a TLV item list  State? [RetryDelay] Error? <step fields> [RetryDelay]
+     (a RetryDelay item accompanies back-off errors; it may come before or after the Error item)
      -> Deliver     the transport hands the items to the state machine; IP and CoAP decode with the
-                    list of expected types the generator yielded and stop at the first other type,
+                    list of expected types the generator yielded and stop at the first other type
+                    (the list contains State, Error, RetryDelay and the step's fields),
                     BLE (and the bare generator) pass everything on
      -> CheckState  a State item that is present must carry the expected step number (a missing
                     State item is tolerated: some accessories omit it)
@@ -49,19 +51,23 @@ Fields(s)   == Needed(s) \cup Optional(s)
 FieldOrder  == <<"pk", "salt", "proof", "enc">>
 
 \* the types the generator announces for the reply (step?_expectations in the code)
-ExpectedTypes(s) == {"state", "error"} \cup Fields(s)
+ExpectedTypes(s) == {"state", "error", "retry"} \cup Fields(s)
 
 Transports(s) == IF s \in ProtoSteps THEN {"gen", "ip", "coap", "ble"}
                  ELSE IF s \in IpMgmt THEN {"ip"} ELSE {"ble"}
 \* post_tlv / CoAP decode with the expected list only for the pairing state machines
 Filters(s, t) == s \in ProtoSteps /\ t \in {"ip", "coap"}
 
-Reply(s) == [state : StateVals, error : ErrorVals, others : SUBSET Fields(s), retry : BOOLEAN]
+\* retry: position of a RetryDelay item - "none", "last" (after everything) or "first" (between State and Error;
+\* only explored for replies that carry an Error item)
+Reply(s) == { r \in [state : StateVals, error : ErrorVals, others : SUBSET Fields(s), retry : {"none", "last", "first"}] :
+              r.retry = "first" => r.error # ABSENT }
 
 Wire(r) == (IF r.state # ABSENT THEN <<"state">> ELSE << >>)
+           \o (IF r.retry = "first" THEN <<"retry">> ELSE << >>)
            \o (IF r.error # ABSENT THEN <<"error">> ELSE << >>)
            \o SelectSeq(FieldOrder, LAMBDA f : f \in r.others)
-           \o (IF r.retry THEN <<"retry">> ELSE << >>)
+           \o (IF r.retry = "last" THEN <<"retry">> ELSE << >>)
 
 \* ------------------------------------------------------------------ outcome classes
 Mapped(e) == CASE e = 2 -> "Authentication"
